@@ -424,7 +424,7 @@ def subroutine_part(ctx):
     from rzilcompiler.Transformer.Hybrids.SubRoutine import SubRoutineInitType
     c = boot.new_compiler("stmt")
     with open(os.path.join(boot.REPO_DIR, "Resources/Hexagon/sub_routines.json")) as f:
-        names = list(json.load(f))
+        names = list(json.load(f)["sub_routines"])
     for tag, ret, params, body in SUB_BODIES:
         name = f"c15_{tag.replace('-', '_')}_{os.getpid()}"
         try:
